@@ -458,7 +458,11 @@ class Analyzer:
                 st["vals"].pop(t["dest"]["l"], None)
                 if dcl.endswith("ops::Try::branch") and isinstance(a0v, tuple) and a0v[0] == "result":
                     st["vals"][t["dest"]["l"]] = a0v     # ControlFlow::Continue for Ok, Break for Err: same discriminants
-            if not t["dest"].get("proj") and t["dest"]["l"] not in st["vals"] and len(self.B.defs().get(t["dest"]["l"], [])) > 1:
+            if dcl.endswith("FromResidual::from_residual") and not t["dest"].get("proj") and t["dest"]["l"] != 0:
+                # `?` inside an inlined callee: the callee's result on this path is this residual (handed to the caller's return place later)
+                st = self._fork(st)
+                st["vals"][t["dest"]["l"]] = ("residual", bb, a0v)
+            elif not t["dest"].get("proj") and t["dest"]["l"] not in st["vals"] and len(self.B.defs().get(t["dest"]["l"], [])) > 1:
                 # a local with several definitions: on this path it holds the result of this call
                 st = self._fork(st)
                 st["vals"][t["dest"]["l"]] = ("calldef", bb)
@@ -482,6 +486,12 @@ class Analyzer:
             return
         if k == "unreachable":
             return
+        if k == "switch" and t.get("resolved"):
+            # the value switched on was fixed earlier on this path (jump threading kept the one arm that can be taken)
+            live_ = [b for _v, b in t["targets"]] + [t["otherwise"]]
+            live_ = [b for b in live_ if self.B.term(b).get("k") != "unreachable"]
+            if len(live_) == 1:
+                return self._walk(live_[0], st, trail, visits, ret_assign)
         if k == "switch":
             arms = [(v, b) for v, b in t["targets"]] + [("otherwise", t["otherwise"])]
             d = t["discr"]
@@ -527,9 +537,30 @@ class Analyzer:
             if isinstance(v, int):
                 vals[l] = ("int", v)
                 return
+        if k == "unop" and rv.get("op") == "Not" and rv.get("a", {}).get("k") in ("copy", "move") and not rv["a"]["p"].get("proj") \
+                and isinstance(vals.get(rv["a"]["p"]["l"]), tuple) and vals[rv["a"]["p"]["l"]][0] == "int":
+            vals[l] = ("int", 0 if vals[rv["a"]["p"]["l"]][1] else 1)
+            return
         if (k == "binop" and rv.get("op") in ("Lt", "Le", "Gt", "Ge", "Eq", "Ne")) or (k == "unop" and rv.get("op") == "Not"):
             vals[l] = ("def", bb, rv)     # on this path the local holds this comparison / negation
             return
+        if k == "aggregate" and rv.get("ak") in ("tuple", "closure"):
+            # a tuple (or a closure's captures) built on this path: its components keep what is known about them
+            vals[l] = ("tuple", tuple(self._op_fact(vals, o_) for o_ in rv["ops"]))
+            return
+        if k == "ref" and not rv["p"].get("proj"):
+            vals[l] = ("ref", rv["p"]["l"])
+            return
+        if k == "ref":
+            got = self._project_fact(vals, rv["p"])
+            if got is not None:
+                vals[l] = ("refto", got)     # a reference to a component of something built on this path
+                return
+        if k == "use" and rv["op"].get("k") in ("copy", "move") and rv["op"]["p"].get("proj"):
+            got = self._project_fact(vals, rv["op"]["p"])
+            if got is not None:
+                vals[l] = got
+                return
         if k == "use" and rv["op"].get("k") in ("copy", "move") and not rv["op"]["p"].get("proj") and rv["op"]["p"]["l"] in vals:
             vals[l] = vals[rv["op"]["p"]["l"]]
             return
@@ -552,6 +583,46 @@ class Analyzer:
             vals[l] = ("int", 0 if vals[rv["a"]["p"]["l"]][1] else 1)
             return
         vals.pop(l, None)
+
+    @staticmethod
+    def _op_fact(vals, op):
+        if op.get("k") == "const":
+            v = op.get("int", op.get("bits"))
+            if v is None and str(op.get("text")).strip() in ("true", "const true", "false", "const false"):
+                v = 1 if "true" in str(op.get("text")) else 0
+            return ("int", v) if isinstance(v, int) else ("opaque",)
+        if op.get("k") in ("copy", "move") and not op["p"].get("proj"):
+            return vals.get(op["p"]["l"]) or ("alias", op["p"]["l"])
+        return ("opaque",)
+
+    @staticmethod
+    def _project_fact(vals, place):
+        """what is known on this path about `place` = a projection through references and tuples that were built on this path"""
+        cur = ("alias", place["l"])
+        for pr in (place.get("proj") or []):
+            hops = 0
+            while isinstance(cur, tuple) and cur[0] == "alias" and hops < 8:
+                nxt = vals.get(cur[1])
+                if nxt is None:
+                    return None
+                cur = nxt
+                hops += 1
+            if pr == "deref":
+                if isinstance(cur, tuple) and cur[0] == "ref":
+                    cur = ("alias", cur[1])
+                    continue
+                if isinstance(cur, tuple) and cur[0] == "refto":
+                    cur = cur[1]
+                    continue
+                return None
+            if isinstance(pr, dict) and "f" in pr and "downcast" not in pr and pr.get("v") is None:
+                if isinstance(cur, tuple) and cur[0] == "tuple" and isinstance(pr.get("i"), int) and pr["i"] < len(cur[1]):
+                    cur = cur[1][pr["i"]]
+                    continue
+            return None
+        if isinstance(cur, tuple) and cur[0] in ("int", "def", "calldef", "alias", "tuple", "ref", "refto"):
+            return cur
+        return None
 
     def _truth(self, val, values):
         """Truth value selected by a switch arm on a bool (0=false)."""
@@ -790,6 +861,10 @@ class Analyzer:
             tracked = ret_assign[3] if len(ret_assign) > 3 else None
             if isinstance(tracked, tuple) and tracked[0] == "result":
                 return ("Ok", tracked[2]) if tracked[1] == "Ok" else ("Err", tracked[2])
+            if isinstance(tracked, tuple) and tracked[0] == "residual":
+                if isinstance(tracked[2], tuple) and tracked[2][0] == "errpayload":
+                    return ("Err", tracked[2][1])
+                return ("Residual", tracked[1], self.role_of_operand(self.B.term(tracked[1])["args"][0]))
             if rv["k"] == "use":
                 r = self.role_of_operand(rv["op"])
                 return ("value", bb, r)
